@@ -565,4 +565,57 @@ theorem agree_not_ub {ρ : Content} {x : Except Lang.Err Lang.Val} {o : VMOps.Ou
   | ok r => simp only [Agree] at h; subst h; rfl
   | error e => obtain ⟨e', lhs, rfl, _⟩ := h; rfl
 
+/-! ## the code as first read: where `VMOps` is undefined on the common fragment -/
+
+theorem divmod_ub_iff (fx : VMOps.Fixes) (ρ : Content) (op : Lang.BinOp) (hop : op = .div ∨ op = .mod) (a b : Lang.Val) :
+    (VMOps.step fx (opOf op) [emb ρ a, emb ρ b]).isUb = true ↔
+      (fx.divMin = false ∧ a = .int VMOps.minInt ∧ b = .int VMOps.negOne) := by
+  have hn : ¬ VMOps.negOne = 0#64 := by decide
+  have hn' : ¬ 0#64 = VMOps.negOne := by decide
+  rcases hop with h | h <;> subst h <;> cases a <;> cases b <;>
+    simp (config := {decide := true}) [opOf, step_bin, VMOps.binop, emb, VMOps.Val.kind,
+      VMOps.binImpl, VMOps.opDiv, VMOps.opMod, VMOps.Out.isUb]
+  all_goals
+    rename_i x y
+    by_cases h0 : y = 0#64 <;> by_cases h1 : (x = VMOps.minInt ∧ y = VMOps.negOne) <;> cases hf : fx.divMin <;>
+      simp [h0, h1, hn, hn']
+
+theorem accepts_shl (ka kb : VMOps.Kind) : VMOps.accepts .shl ka kb = (ka == .int && kb == .int) := by
+  cases ka <;> cases kb <;> rfl
+theorem accepts_shr (ka kb : VMOps.Kind) : VMOps.accepts .shr ka kb = (ka == .int && kb == .int) := by
+  cases ka <;> cases kb <;> rfl
+
+theorem shift_ub_iff (fx : VMOps.Fixes) (ρ : Content) (op : Lang.BinOp) (hop : op = .shl ∨ op = .shr) (a b : Lang.Val) :
+    (VMOps.step fx (opOf op) [emb ρ a, emb ρ b]).isUb = true ↔
+      (fx.shiftCount = false ∧ ∃ x y, a = .int x ∧ b = .int y ∧ 64 ≤ y.toNat) := by
+  rcases hop with h | h <;> subst h <;> cases a <;> cases b <;>
+    simp [opOf, step_bin, VMOps.binop, emb, VMOps.Val.kind, VMOps.binImpl, VMOps.opShift,
+      VMOps.Out.isUb, accepts_shl, accepts_shr]
+  all_goals
+    rename_i x y
+    by_cases h0 : y.toNat < 64 <;> cases hf : fx.shiftCount <;> simp [h0]
+  all_goals omega
+
+theorem binop_ub_iff (fx : VMOps.Fixes) (ρ : Content) (op : Lang.BinOp) (a b : Lang.Val) (wa : WF a) (wb : WF b) :
+    (VMOps.step fx (opOf op) [emb ρ a, emb ρ b]).isUb = true ↔
+      (fx.divMin = false ∧ (op = .div ∨ op = .mod) ∧ a = .int VMOps.minInt ∧ b = .int VMOps.negOne) ∨
+      (fx.shiftCount = false ∧ (op = .shl ∨ op = .shr) ∧ ∃ x y, a = .int x ∧ b = .int y ∧ 64 ≤ y.toNat) := by
+  cases op
+  case div => rw [divmod_ub_iff fx ρ _ (by simp)]; simp
+  case mod => rw [divmod_ub_iff fx ρ _ (by simp)]; simp
+  case shl => rw [shift_ub_iff fx ρ _ (by simp)]; simp
+  case shr => rw [shift_ub_iff fx ρ _ (by simp)]; simp
+  case bor => simp [agree_not_ub (arith_agree fx ρ .bor (by simp) a b)]
+  case bxor => simp [agree_not_ub (arith_agree fx ρ .bxor (by simp) a b)]
+  case band => simp [agree_not_ub (arith_agree fx ρ .band (by simp) a b)]
+  case sub => simp [agree_not_ub (arith_agree fx ρ .sub (by simp) a b)]
+  case mul => simp [agree_not_ub (arith_agree fx ρ .mul (by simp) a b)]
+  case add => simp [agree_not_ub (add_agree fx ρ a b)]
+  case eq => simp [agree_not_ub (eq_agree fx ρ .eq (by simp) a b wa wb)]
+  case ne => simp [agree_not_ub (eq_agree fx ρ .ne (by simp) a b wa wb)]
+  case lt => simp [agree_not_ub (cmp_agree fx ρ .lt (by simp) a b)]
+  case gt => simp [agree_not_ub (cmp_agree fx ρ .gt (by simp) a b)]
+  case le => simp [agree_not_ub (cmp_agree fx ρ .le (by simp) a b)]
+  case ge => simp [agree_not_ub (cmp_agree fx ρ .ge (by simp) a b)]
+
 end Morfuse.XLinks
